@@ -22,8 +22,9 @@ VICTIMS = [
     ("quic", {"suite": 0x1301}), ("quic", {"suite": 0x1303}),
 ]
 HIST = [("c", 90), ("s", 260), ("s", 33), ("c", 12), ("s", 5)]
-FAMILIES = ["delete", "cut", "keylog", "suite", "flip", "overwrite", "truncate", "record", "http", "inject_short", "inject_first"]
-INFO_REMOVING = {"delete", "cut", "keylog", "suite", "http", "inject_short", "inject_first"}
+FAMILIES = ["delete", "cut", "keylog", "suite", "flip", "overwrite", "truncate", "record", "http", "inject_short", "inject_first",
+            "inject_long"]
+INFO_REMOVING = {"delete", "cut", "keylog", "suite", "http", "inject_short", "inject_first", "inject_long"}
 SYMS = [0x00, 0x01, 0x3f, 0x40, 0x41, 0x7f, 0x80, 0xbf, 0xc0, 0xc3, 0xff]
 
 
@@ -57,6 +58,12 @@ def cases(tier, seed):
             if fam in ("flip", "overwrite", "truncate"):
                 for part in range(8):
                     yield {"victim": vi, "family": fam, "part": part, "nparts": 8, "seed": seed, "tier": tier}
+            elif fam == "inject_long":
+                if vi not in (3, 8):
+                    continue
+                for zl in (0, 1):            # QUIC bystander with ordinary / with a zero-length client connection id
+                    for part in range(8):
+                        yield {"victim": vi, "family": fam, "part": part, "nparts": 8, "zl": zl, "seed": seed, "tier": tier}
             elif fam in ("inject_short", "inject_first"):
                 if vi not in (3, 8):
                     continue            # injection does not depend on the victim class: one TLS and one QUIC victim
@@ -66,7 +73,7 @@ def cases(tier, seed):
                 yield {"victim": vi, "family": fam, "seed": seed, "tier": tier}
 
 
-def build(vi, seed, override=None):
+def build(vi, seed, override=None, by2_override=None):
     kind, scn = VICTIMS[vi]
     scn = dict(scn)
     if override:
@@ -77,7 +84,7 @@ def build(vi, seed, override=None):
     else:
         victim = scen.quic_flow(scn, seed, 0)
     by1 = scen.tls_flow({"version": tls.TLS12, "suite": 0x009D, "history": [("c", 50), ("s", 70), ("c", 3)]}, seed, 1)
-    by2 = scen.quic_flow({"suite": 0x1301 if kind == "tls" else 0x1302}, seed, 2, v6=(vi % 2 == 1))
+    by2 = scen.quic_flow(dict({"suite": 0x1301 if kind == "tls" else 0x1302}, **(by2_override or {})), seed, 2, v6=(vi % 2 == 1))
     flows = [victim, by1, by2]
     ends = {f.id: f.ends for f in flows}
     pkts = cap.stamp(scen.round_robin([f.pkts for f in flows]), ends)
@@ -121,7 +128,7 @@ def victim_ok(an, victim):
 def run_case(case):
     harness.load()
     vi, fam, seed, tier = case["victim"], case["family"], case["seed"], case["tier"]
-    flows, ends, pkts = build(vi, seed)
+    flows, ends, pkts = build(vi, seed, by2_override={"ccid_len": 0} if case.get("zl") else None)
     victim = flows[0]
     vname = VICTIMS[vi][0] + ":" + ("%s/%#06x" % (tls.VERSION_NAMES.get(VICTIMS[vi][1].get("version"), "QUIC"), VICTIMS[vi][1]["suite"]))
     base = scen.run(pkts, keylog_of(flows))
@@ -135,9 +142,15 @@ def run_case(case):
     n = 0
     sample = None
 
-    def check(pk, keylog, sig, info_removing, flows_=flows):
-        nonlocal n, sample
-        res = scen.run(pk, keylog)
+    refs_by_args = {(): ref}
+
+    def check(pk, keylog, sig, info_removing, flows_=flows, args=(), injected=None):
+        nonlocal n, sample, ref
+        args = tuple(args)
+        if args not in refs_by_args:
+            refs_by_args[args] = observe(scen.run(pkts, keylog_of(flows), list(args)), flows)[1]
+        ref = refs_by_args[args]
+        res = scen.run(pk, keylog, list(args))
         n += 1
         try:
             an, obs = observe(res, flows_)
@@ -159,7 +172,8 @@ def run_case(case):
         known = set()
         for o in obs:
             known.update(raw for _, raw in o)
-        foreign = [fr for _, fr in an["packets"] if fr.raw not in known and fr.payload]
+        foreign = [fr for _, fr in an["packets"] if fr.raw not in known and fr.payload
+                   and not (injected and {(fr.src_ip, fr.sport), (fr.dst_ip, fr.dport)} == injected)]
         if foreign:
             fails.append({"kind": "foreign_payload_in_output", "sig": sig,
                           "detail": f"{len(foreign)} packets with payload that belong to no modelled flow, e.g. {foreign[0]!r}"})
@@ -303,6 +317,42 @@ def run_case(case):
         victim.conn.plain = {"c": b"", "s": b""}
         check(pk, kl, {"victim": vname, "fault": "plain_http_on_443"}, True)
         ref[1], ref[2] = saved
+    elif fam == "inject_long":
+        # structured QUIC long-header datagrams from addresses that belong to no flow: every packet type x version x
+        # destination-cid shape (absent, foreign, the bystander's own ids) x source-cid shape x body, without and with -a
+        part, nparts = case["part"], case["nparts"]
+        by2 = flows[2].conn
+        src = net.Endpoint(b"\x02\xEE\x00\x00\x00\x01", "10.77.0.9", 47001)
+        dsts = [net.Endpoint(b"\x02\xEE\x00\x00\x00\x03", "10.77.0.44", 443), net.Endpoint(b"\x02\xEE\x00\x00\x00\x06", "10.77.0.46", 9999)]
+        if len(flows[2].ends.server.ip) != 4:
+            src = net.Endpoint(src.mac, "fd77::9", 47001)
+            dsts = [net.Endpoint(dsts[0].mac, "fd77::44", 443), net.Endpoint(dsts[1].mac, "fd77::46", 9999)]
+        # (a datagram that carries one of the bystander's own connection ids IS, by QUIC's rules, a datagram of that connection -
+        # connection migration - and is therefore not part of the menu, just as datagrams on a bystander's 4-tuple are not)
+        dcids = [b"", bytes(range(0xA0, 0xA8)), bytes(range(0xA0, 0xB4)), bytes(range(0xA0, 0xA1)), by2.ccid[:-1] + bytes([by2.ccid[-1] ^ 1]) if by2.ccid else b"\x00",
+                 by2.scid[:4]]
+        scids = [b"", bytes(range(0xC0, 0xC8))]
+        versions = [1, 0, 0x6B3343CF, 0x0A0A0A0A]
+        bodies = [b"", bytes(range(0xA0, 0xB5)), b"\x00" + bytes(range(1, 40)), bytes([0x40, 0x64]) + bytes(100), bytes(1180)]
+        fbs = [0xC0, 0xC3, 0xD1, 0xE2, 0xF0, 0xFF, 0x80, 0xCC] if tier == "quick" else list(range(0x80, 0x100, 1))
+        combos = [(fb, v, dc, sc, bi, di) for fb in fbs for v in versions for dc in range(len(dcids)) for sc in range(len(scids))
+                  for bi in range(len(bodies)) for di in range(len(dsts))
+                  if tier != "quick" or (bi + dc + di) % 2 == 0 or fb >= 0xF0]
+        ats = [i for i, p in enumerate(pkts) if p.conn == 2]
+        for w, (fb, v, dc, sc, bi, di) in enumerate(combos):
+            if w % nparts != part:
+                continue
+            pl = bytes([fb]) + v.to_bytes(4, "big") + bytes([len(dcids[dc])]) + dcids[dc] + bytes([len(scids[sc])]) + scids[sc] + bodies[bi]
+            # after the bystander's second packet (its ids are known by then) - or right at the start
+            at = ats[2] if w % 3 else 0
+            ip = cap.Pkt(99, "c", "udp", pl)
+            ip.ts = pkts[at].ts - cap.STEP / 10007 * 3
+            ip.frame = net.build_frame(src, dsts[di], "udp", pl)
+            pk = pkts[:at] + [ip] + pkts[at:]
+            inj = {src.key(), dsts[di].key()}
+            for args in ((), ("-a",)) if (w // 3) % 2 == 0 or tier != "quick" else ((),):
+                check(pk, kl, {"victim": vname, "fault": fam, "first": fb, "version": v, "dcid": dc, "scid": sc, "body": bi, "dst": di,
+                               "at": "start" if at == 0 else "mid", "zl": case.get("zl", 0), "args": list(args)}, not args, args=args, injected=inj)
     else:
         part, nparts = case["part"], case["nparts"]
         inj_c = net.Endpoint(b"\x02\xEE\x00\x00\x00\x01", "10.77.0.9", 47001)
